@@ -180,6 +180,7 @@ type world struct {
 	root   string
 	cfg    worldCfg
 	nextID uint32
+	strays bool // a lookup may have left goroutines of getLayer behind (see quiesce)
 }
 
 // composeImages draws nImg images of 1..maxLayers distinct pool layers (a pool layer may be
@@ -360,38 +361,21 @@ func resolving() (busy bool, why string) {
 	return false, ""
 }
 
-// settled is the cheap test: every layer of every image the manager has touched has a
-// memoised resolution result (the memo is written at the very end of resolveLayer, and a
-// resolveLayer that finds a memo returns at once), so nothing is being resolved.
-func (w *world) settled() bool {
-	st := w.state()
-	for _, im := range w.images {
-		if !im.published {
-			continue
-		}
-		ref := im.ref.String()
-		if len(st.resolved[ref]) == 0 && len(st.layers[ref]) == 0 {
-			continue // nothing was started for this image (every caller has returned)
-		}
-		for _, l := range im.layers {
-			if !has(st.resolved[ref], l.built.Digest.String()) {
-				return false
-			}
-		}
-	}
-	return true
-}
-
-// quiesce waits until no resolution is in flight; only called when every lookup call has
-// returned. State-based: first the memo test, else a goroutine dump without a frame of
-// resolveLayer. The wall clock is only a watchdog (false = inconclusive).
+// quiesce waits until no goroutine of getLayer is left that could still resolve (and cache)
+// a layer. getLayer starts one goroutine per layer of the image and returns as soon as the
+// wanted layer is there; the others go on in the background — possibly long after the
+// call returned, and a goroutine that has not even started yet will consult the memo only
+// then. strays is set by the callers whenever a lookup may have started such goroutines
+// (the wanted layer was not cached before the call); without strays there is nothing to
+// wait for. Decided on a goroutine dump, never on time: the wall clock is only a watchdog
+// (false = inconclusive).
 func (w *world) quiesce() bool {
+	if !w.strays {
+		return true
+	}
 	t := time.Now()
 	if os.Getenv("C16_TIMING") != "" {
 		defer func() { w.r.Count("us_quiesce", int(time.Since(t).Microseconds())); w.r.Count("n_quiesce", 1) }()
-	}
-	if w.settled() {
-		return true
 	}
 	w.r.Count("quiesce_by_goroutine_dump", 1)
 	for i := 0; ; i++ {
@@ -411,7 +395,14 @@ func (w *world) quiesce() bool {
 			time.Sleep(2 * time.Millisecond)
 		}
 	}
+	w.strays = false
 	return true
+}
+
+// cached reports whether the manager holds a layer for (ref, digest) right now (then a
+// lookup is answered from the cache and starts nothing).
+func (w *world) cached(k *key) bool {
+	return has(w.state().layers[k.img.ref.String()], k.dig.String())
 }
 
 // ---------------------------------------------------------------------------
